@@ -78,6 +78,22 @@ def bin_completion(binner: Binner, binsize: float, items: List[Any])->BinsArray:
     # Remove zeros from items as they are irrelevant.
     items = [item for item in items if binner.valueof(item)!=0]
 
+    # The search below computes on the items themselves (it adds, compares and removes them),
+    # so it runs on the item values; the items are put back into the bins at the end.
+    if any(binner.valueof(item) is not item and binner.valueof(item) != item for item in items):
+        values = [binner.valueof(item) for item in items]
+        bins_of_values = bin_completion(type(binner)(lambda value: value), binsize, values)
+        if not isinstance(binner, BinnerKeepingContents):
+            return bins_of_values    # the sums are the same
+        items_of_value = {}
+        for item in items:
+            items_of_value.setdefault(binner.valueof(item), []).append(item)
+        bins = binner.new_bins(len(bins_of_values[1]))
+        for bin_index, values_in_bin in enumerate(bins_of_values[1]):
+            for value in values_in_bin:
+                binner.add_item_to_bin(bins, items_of_value[value].pop(0), bin_index)
+        return bins
+
     # Find the BFD solution and check if it's optimal using the lower bound calculation.
     bfd_solution = best_fit.decreasing(binner, binsize, items)
     lb = lower_bound(binsize, map(binner.valueof, items))
